@@ -293,6 +293,12 @@ class IntegrityChecker(object):
                 comp_i = 0
                 noco_i = 0
                 for key in h5:
+                    if isinstance(h5.get(key, getlink=True),
+                                  h5py.ExternalLink):
+                        # External links are reported by
+                        # `check_external_links` (the target might not
+                        # be available).
+                        continue
                     obj = h5[key]
                     if isinstance(obj, h5py.Dataset):
                         if is_properly_compressed(obj):
@@ -888,6 +894,9 @@ def hdf5_has_external(h5):
 
     """
     for key in h5:
+        if isinstance(h5.get(key, getlink=True), h5py.ExternalLink):
+            # external link (the target does not have to exist)
+            return True, f"{h5.name}/{key}".replace("//", "/")
         obj = h5[key]
         if (obj.file != h5.file  # not in same file
                 or (isinstance(obj, h5py.Dataset)
